@@ -23,6 +23,7 @@ theorem handle_gates_before_call :
 
 theorem formatter_shape :
     Generated.formatterReturns = ["namespace + \".\" + formattedMethod", "formattedMethod"] ∧
-    Generated.formatterLowerExpr = some "strings.ToLower(method[:1]) + method[1:]" := by decide
+    -- the first *letter* (rune), as `Fmt.apply` lower-cases the first `Char` of the name (before F29: the first byte)
+    Generated.formatterLowerExpr = some "string(unicode.ToLower(r)) + method[size:]" := by decide
 
 end Jrpc.Facts
